@@ -1,7 +1,7 @@
 """C20 -- command-line tools mirror the library (DESIGN.md section 3, C20): option tables, exit status, key export widths."""
 import re
 from front import AnalysisBroken, const_int
-from interp import Interp, State, Int, NULL, Ref, Str, Fn, Term, Rule, vkey, node_loc, decode_c_string
+from interp import linform, Interp, State, Int, NULL, Ref, Str, Fn, Term, Rule, vkey, node_loc, decode_c_string
 from model import build_model
 from report import Finding
 from props.common import Env
@@ -278,17 +278,88 @@ def check_exit_status(chk, prog, model):
             last_exit = st_
     if last_exit is None:
         raise AnalysisBroken('jwt-verify main: final exit/return not found')
-    # the failure counter: the variable that accumulates process_one() results
+    # the failure counter: found by what the statements around each process_one() call do, not by their spelling.  Each innermost
+    # statement containing a call is interpreted with process_one answering 0 and 1; the counter is the local that stays put for 0
+    # and grows by d >= 1 for a failure ("err += process_one()", "if (process_one()) err++", "failed = ...; err += failed" alike)
+    def calls_po(n_):
+        return any(y.get('kind') == 'CallExpr' and _strip(y['inner'][0]).get('referencedDecl', {}).get('name') == 'process_one' for y in walk(n_))
+
+    sites = []      # (statement, statements that follow it in its block)
+
+    def find_sites(n_):
+        if not isinstance(n_, dict):
+            return
+        kids = [c for c in n_.get('inner', ()) if isinstance(c, dict)]
+        if n_.get('kind') == 'CompoundStmt':
+            for i_, c in enumerate(kids):
+                if calls_po(c):
+                    if any(calls_po(g) for g in c.get('inner', ()) if isinstance(g, dict) and g.get('kind') in
+                           ('CompoundStmt', 'IfStmt', 'ForStmt', 'WhileStmt', 'DoStmt', 'SwitchStmt')) and c.get('kind') != 'IfStmt':
+                        find_sites(c)
+                    elif c.get('kind') == 'IfStmt' and not calls_po(c['inner'][0]):
+                        find_sites(c)
+                    else:
+                        sites.append((c, kids[i_ + 1:]))
+        else:
+            for c in kids:
+                if calls_po(c):
+                    if c.get('kind') == 'CompoundStmt' or any(calls_po(g) for g in c.get('inner', ()) if isinstance(g, dict)):
+                        if c.get('kind') in ('CompoundStmt', 'IfStmt', 'ForStmt', 'WhileStmt', 'DoStmt', 'SwitchStmt'):
+                            find_sites(c)
+                        else:
+                            sites.append((c, []))
+                    else:
+                        sites.append((c, []))
+    find_sites(body)
+    if not sites:
+        raise AnalysisBroken('jwt-verify: no statement calling process_one() found in main')
+
+    def effect(stmts, r):
+        """locals of main whose value after stmts is their value before plus a non-zero constant, with process_one() answering r"""
+        it = Interp(prog, unit, model=model, hooks={'process_one': lambda it, st, a, nd: [(st, Int(r))]})
+        states = [State()]
+        for stmt in stmts:
+            nxt = []
+            for s_ in states:
+                for s2, ctrl in it.exec_stmt(stmt, s_):
+                    if not s2.dead:
+                        nxt.append(s2)
+            states = nxt
+        out = {}
+        for s_ in states:
+            for (loc, path), v in s_.mem.items():
+                if loc[0] == 'var' and loc[1] == unit and path == '':
+                    lf = linform(v)
+                    own = ('term', ('mem', loc, ''))
+                    if lf is not None and dict(lf[0]) == {own: 1}:
+                        out.setdefault(loc, set()).add(lf[1])
+                    elif isinstance(v, Int) or lf is None or dict(lf[0]) != {own: 1}:
+                        out.setdefault(loc, set()).add(None)
+        return out
     cid = cname = None
-    for x in walk(body):
-        if x.get('kind') == 'CompoundAssignOperator' and x.get('opcode') == '+=':
-            r_ = _strip(x['inner'][1])
-            l_ = _strip(x['inner'][0])
-            if r_.get('kind') == 'CallExpr' and _strip(r_['inner'][0]).get('referencedDecl', {}).get('name') == 'process_one' \
-                    and l_.get('kind') == 'DeclRefExpr':
-                cid, cname = l_['referencedDecl']['id'], l_['referencedDecl'].get('name')
+    n_sites = 0
+    site_bad = []
+    for stmt, rest in sites:
+        found = None
+        for stmts in ([stmt], [stmt] + rest):
+            ok0, bad1 = effect(stmts, 0), effect(stmts, 1)
+            cands = [loc for loc, ds in bad1.items() if ds and None not in ds and all(d >= 1 for d in ds)
+                     and ok0.get(loc, {0}) <= {0}]
+            if len(cands) == 1:
+                found = (cands[0], bad1[cands[0]])
+                break
+        n_sites += 1
+        if found is None:
+            site_bad.append(stmt.get('_l'))
+            continue
+        loc, ds = found
+        if cid is not None and loc[2] != cid:
+            raise AnalysisBroken('jwt-verify: two different failure counters (%s, %s)' % (cname, loc[3]))
+        cid, cname = loc[2], loc[3]
+        if not all(1 <= d <= 255 for d in ds):
+            site_bad.append(stmt.get('_l'))
     if cid is None:
-        raise AnalysisBroken('jwt-verify: no "counter += process_one(...)" found')
+        raise AnalysisBroken('jwt-verify: no local of main counts the failed process_one() calls (lines %s)' % site_bad)
     # the tail of main: the top-level statements after the last one that processes tokens, up to the final exit/return
     top = body.get('inner', [])
     last_proc = max(i_ for i_, st_ in enumerate(top)
@@ -331,27 +402,37 @@ def check_exit_status(chk, prog, model):
     # only the part of main up to and including token processing is subject to (b); what the tail does to the counter is covered by (a)
     body = dict(body)
     body['inner'] = top[:last_proc + 1]
-    # (b) the counter starts at 0 and only grows by the 0/1 result of process_one
-    assigns = []
+    # (b) every statement that processes a token adds d in 1..255 to the counter exactly when the token failed (decided above), and
+    # nothing else in the processing part writes the counter except its initialisation to 0
+    for l_ in site_bad:
+        bad += 1
+        chk.add(Finding('C20.exit-status', unit, 'main', 'counter-update', 'the statement at line %s does not add 1..255 to the failure counter '
+                                                                         '%s exactly when process_one() reports a failure' % (l_, cname), line=l_))
+    n += n_sites
+    inside = set()
+    for stmt, rest in sites:
+        for x in walk(stmt):
+            inside.add(id(x))
+        for r_ in rest:
+            for x in walk(r_):
+                inside.add(id(x))
     for x in walk(body):
-        if x.get('kind') in ('BinaryOperator', 'CompoundAssignOperator') and (x.get('opcode') in ('=', '+=', '-=', '|=', '&=', '*=')):
-            l = _strip(x['inner'][0])
-            if l.get('kind') == 'DeclRefExpr' and l['referencedDecl'].get('id') == cid:
-                assigns.append(x)
-    for a in assigns:
-        n += 1
-        r = _strip(a['inner'][1])
-        ok = False
-        if a.get('opcode') == '=' and r.get('kind') == 'IntegerLiteral' and r.get('value') == '0':
-            ok = True
-        if a.get('opcode') == '+=' and r.get('kind') == 'CallExpr' and _strip(r['inner'][0]).get('referencedDecl', {}).get('name') == 'process_one':
-            ok = True
-        if not ok:
-            bad += 1
-            chk.add(Finding('C20.exit-status', unit, 'main', 'counter-update', 'the failure counter %s is updated by something other than "= 0" or '
-                                                                             '"+= process_one(...)" at line %s' % (cname, a.get('_l')), line=a.get('_l')))
-    if not any(a.get('opcode') == '+=' for a in assigns):
-        raise AnalysisBroken('jwt-verify: failure counter is never incremented')
+        if id(x) in inside:
+            continue
+        tgt = None
+        if x.get('kind') in ('BinaryOperator', 'CompoundAssignOperator') and x.get('opcode', '').endswith('='):
+            tgt = _strip(x['inner'][0])
+            rhs = _strip(x['inner'][1])
+            zero = x.get('opcode') == '=' and rhs.get('kind') == 'IntegerLiteral' and rhs.get('value') == '0'
+        elif x.get('kind') == 'UnaryOperator' and x.get('opcode') in ('++', '--'):
+            tgt = _strip(x['inner'][0])
+            zero = False
+        if tgt is not None and tgt.get('kind') == 'DeclRefExpr' and tgt['referencedDecl'].get('id') == cid:
+            n += 1
+            if not zero:
+                bad += 1
+                chk.add(Finding('C20.exit-status', unit, 'main', 'counter-update', 'the failure counter %s is also written at line %s, outside the '
+                                                                                 'statements that count a failed token' % (cname, x.get('_l')), line=x.get('_l')))
     # (c) process_one returns 0 when verification succeeded and a small positive number when it failed.  What jwt_checker_verify can
     # return is taken from the library (composition): if that is a known finite set, process_one is evaluated on each member
     rset = verify_return_values(prog)
